@@ -71,7 +71,7 @@ def encodable(v, depth=0):
         return False
     if v is None or isinstance(v, (bool, int, float, str)):
         return True
-    if isinstance(v, (list, tuple)):
+    if isinstance(v, list):       # not tuple: the wire format would turn it into a list, which the library treats differently
         return all(encodable(x, depth + 1) for x in v)
     if isinstance(v, dict):
         return all(isinstance(k, str) for k in v) and all(encodable(x, depth + 1) for x in v.values())
